@@ -36,8 +36,10 @@ def main():
                 print(s, "PATCH DOES NOT APPLY", out[-300:]); summary[s] = "noapply"; continue
             todo = checks if allchecks else [c for c in checks if c == meta["property"]]
             hits = []
-            for c in todo:
-                rc, out = sh("./check %s --tier quick" % c, cwd=VERIF)
+            from concurrent.futures import ThreadPoolExecutor
+            with ThreadPoolExecutor(max_workers=16) as ex:
+                results = list(ex.map(lambda c: (c,) + sh("./check %s --tier quick" % c, cwd=VERIF), todo))
+            for c, rc, out in results:
                 if rc != 0:
                     lines = [l for l in out.splitlines() if l.startswith("  ") and ("verif/" in l or "scripts/" in l)][:2]
                     hits.append((c, rc, lines or [l for l in out.splitlines() if "ANALYSIS-ERROR" in l][:1]))
